@@ -359,6 +359,9 @@ enum BbAct {
     WWithOffset(u8),  // 2 bytes of PAT, offset
     WWithLen(u8),     // 3 bytes of PAT, len
     WAt(u8, bool),    // with_write_position_at(p, write_bit)
+    WAtBits(u8, u8),  // with_write_position_at(p, write_bits(n bytes of PAT)): overwrites inside the written bits
+    WAtOffLen(u8, u8, u8), // with_write_position_at(p, write_bits_with_offset_len(PAT, off, len))
+    WFailLong(u8),    // write_bits_with_offset_len(3-byte source, off, 24) => Err (3 + 24 > 24), buffer as it was
     WFail,            // 1-byte source, len 9 => must be Err and leave the buffer as it was
     WFailOffset,      // write_bits_with_offset(1-byte source, offset 9) => must be Err
     RBit,
@@ -381,9 +384,10 @@ fn bb_alphabet(full: bool) -> Vec<BbAct> {
             }
         }
         v.extend([WBits(1), WBits(3), WWithOffset(5), WWithLen(17), WAt(0, true), WAt(0, false), WAt(5, true), WAt(5, false)]);
+        v.extend([WAtBits(0, 1), WAtBits(8, 1), WAtBits(8, 2), WAtBits(3, 1), WAtOffLen(0, 3, 9), WAtOffLen(5, 3, 20), WAtOffLen(8, 0, 17), WFailLong(3), WFailLong(5), WFailLong(1)]);
         v.extend([WFail, WFailOffset, RBit, RLen(1), RLen(8), RLen(17), ROffLen(3, 9), ROffLen(1, 17), RBits(1), RBits(2), RWithOffset(3), RReset, RAt(0), RAt(5), RDstShort]);
     } else {
-        v.extend([WOffLen(3, 7), WOffLen(0, 17), WOffLen(3, 24), WBits(1), WAt(5, true), WFail, RBit, RLen(8), ROffLen(3, 9), RLen(17), RReset, RDstShort]);
+        v.extend([WOffLen(3, 7), WOffLen(0, 17), WOffLen(3, 24), WBits(1), WAt(5, true), WAtBits(8, 1), WAtOffLen(5, 3, 20), WFailLong(3), WFail, RBit, RLen(8), ROffLen(3, 9), RLen(17), RReset, RDstShort]);
     }
     v
 }
@@ -405,6 +409,8 @@ fn bb_step(st: &BbState, a: BbAct) -> StepOut {
     // preconditions that are the caller's obligations (documented panics / debug_asserts)
     match a {
         WAt(p, _) if (p as usize) >= w => return StepOut::Disabled,
+        WAtBits(p, n) if p as usize + n as usize * 8 > w => return StepOut::Disabled,
+        WAtOffLen(p, _, len) if p as usize + len as usize > w => return StepOut::Disabled,
         RAt(p) if (p as usize) >= w => return StepOut::Disabled,
         _ => {}
     }
@@ -419,6 +425,9 @@ fn bb_step(st: &BbState, a: BbAct) -> StepOut {
             WWithOffset(off) => bb.write_bits_with_offset(&PAT[..2], off as usize).map(|_| None).map_err(e),
             WWithLen(len) => bb.write_bits_with_len(&PAT[..3], len as usize).map(|_| None).map_err(e),
             WAt(p, b) => bb.with_write_position_at(p as usize, |x| x.write_bit(b)).map(|_| None).map_err(e),
+            WAtBits(p, n) => bb.with_write_position_at(p as usize, |x| x.write_bits(&PAT[..n as usize])).map(|_| None).map_err(e),
+            WAtOffLen(p, off, len) => bb.with_write_position_at(p as usize, |x| x.write_bits_with_offset_len(&PAT, off as usize, len as usize)).map(|_| None).map_err(e),
+            WFailLong(off) => bb.write_bits_with_offset_len(&PAT[..3], off as usize, 24).map(|_| None).map_err(e),
             WFail => bb.write_bits_with_offset_len(&PAT[..1], 0, 9).map(|_| None).map_err(e),
             WFailOffset => bb.write_bits_with_offset(&PAT[..1], 9).map(|_| None).map_err(e),
             RBit => bb.read_bit().map(Some).map_err(e),
@@ -474,7 +483,19 @@ fn bb_step(st: &BbState, a: BbAct) -> StepOut {
             m[p as usize] = b;
             Exp::WriteOk
         }
-        WFail | WFailOffset => Exp::WriteErr,
+        WAtBits(p, n) => {
+            for k in 0..n as usize * 8 {
+                m[p as usize + k] = patb[k];
+            }
+            Exp::WriteOk
+        }
+        WAtOffLen(p, off, len) => {
+            for k in 0..len as usize {
+                m[p as usize + k] = patb[off as usize + k];
+            }
+            Exp::WriteOk
+        }
+        WFail | WFailOffset | WFailLong(_) => Exp::WriteErr,
         RBit => {
             if r < w {
                 exp_r = r + 1;
@@ -584,6 +605,9 @@ fn act_class(a: BbAct) -> &'static str {
         WWithOffset(_) => "write_bits_with_offset",
         WWithLen(_) => "write_bits_with_len",
         WAt(..) => "with_write_position_at",
+        WAtBits(..) => "with_write_position_at.write_bits",
+        WAtOffLen(..) => "with_write_position_at.write_bits_with_offset_len",
+        WFailLong(_) => "failing_long_unaligned_write",
         WFail => "failing_write_len",
         WFailOffset => "failing_write_offset",
         RBit => "read_bit",
